@@ -51,6 +51,11 @@ CHECKS = {
    note="Trusted: jxlw streams carry known samples (C03), reference orientation maps written from the EXIF definitions. Spot colours excluded.",
    technique="full-product enumeration vs reference coordinate maps and rounding rule",
    design_ref="4/C15", engine="mc"),
+ "C05": dict(category="exploration",
+   text="Multi-frame images on a 5x4 canvas (lossless Modular, RGB+alpha+optional second extra channel): every configuration within 2 (quick, up to 3 frames) / 3 (thorough, up to 4 frames) deviations over image dims (straight/premultiplied alpha, alpha depth vs colour depth) and per-frame dims (type, duration, save slot, 5 blend modes, source slot, clamp, 9 crop kinds incl. outside/larger than canvas, EC blend variants, sample pattern) and keyframe request order, plus the full product for two frames over modes x slots x crops; every keyframe compared with an independent reference compositor within 1e-5.",
+   note="Trusted: jxlw::model::composite. Not covered: patches (no patch writer), save_before_ct on normal frames, cropped ReferenceOnly frames, the EC blend-source zone where spec readings differ.",
+   technique="deviation-bounded + full-product enumeration of frame sequences vs reference compositor",
+   design_ref="4/C05", engine="mc"),
 }
 NOT_YET = "check not built yet in this round (work in progress; see DESIGN.md section 10)"
 NA = {}
